@@ -57,7 +57,14 @@ I4_FIELDS = [("net.ipaddress", "addr"), ("uri", "link")]
 # bytes values: implementation-level only (the helpers must leave them alone: they are not text)
 D5_FIELDS = [("bytes", "data"), ("bytes", "d2"), ("string", "s"), ("varint", "n")]
 BYTES_VALUES = [b"MZ-Header", b"mz-header", b"ABC", b"abc", b"\x00\xffPK", b""]
-DESCS = {"D5": ("test/c07bytes", D5_FIELDS), "D1": ("test/c07", D1_FIELDS), "D2": ("test/c07b", D2_FIELDS), "D3": ("test/c07n", D3_FIELDS),
+# field types whose == is wider than their hash (net.ipaddress == '10.0.0.1'), unhashable ones (path, command), numeric
+# ones: membership in literal lists / tuples of constants of the foreign kinds must follow ==
+D6_FIELDS = [("net.ipaddress", "ip"), ("net.ipnetwork", "netw"), ("path", "p"), ("command", "cmd"), ("filesize", "fs"),
+             ("boolean", "b"), ("varint", "n"), ("uri", "u"), ("string", "s"), ("uint16", "port"), ("float", "f"),
+             ("unix_file_mode", "mode")]
+# several fields of one type, ordered so that different fields satisfy different links of a chained comparison
+D7_FIELDS = [("varint", "size"), ("varint", "count"), ("varint", "k"), ("string", "first"), ("string", "last"), ("uint16", "port")]
+DESCS = {"D6": ("test/c07wide", D6_FIELDS), "D7": ("test/c07multi", D7_FIELDS), "D5": ("test/c07bytes", D5_FIELDS), "D1": ("test/c07", D1_FIELDS), "D2": ("test/c07b", D2_FIELDS), "D3": ("test/c07n", D3_FIELDS),
          "D4": ("test/c07ip", D4_FIELDS), "I1": ("test/inner", I1_FIELDS), "I2": ("test/inner2", I2_FIELDS),
          "I4": ("test/innerip", I4_FIELDS)}
 URIS_TOP = ["http://top.net/x/y.z", "https://example.com/a/b.txt", "ftp://files.org/pub/readme"]
@@ -142,6 +149,12 @@ FIXED_RECORDS = [
     ("D4", dict(ip="10.0.0.1", s="a", sub=("I4", dict(addr="192.168.1.7", link="http://example.com/dl/evil.bin")))),
     ("D5", dict(data=b"MZ-Header", d2=b"abc", s="MZ-Header", n=1)),
     ("D5", dict(data=b"ABC", d2=None, s="abc", n=2)),
+    ("D6", dict(ip="10.0.0.1", netw="10.0.0.0/8", p="/tmp/x", cmd="ls -l", fs=1024, b=True, n=1, u="http://a/b", s="abc", port=80,
+                f=1.0, mode=0o644)),
+    ("D6", dict(ip="::1", netw="192.168.0.0/16", p="/", cmd="cat /etc/passwd", fs=0, b=False, n=0, u="ftp://h/x", s="", port=0,
+                f=0.0, mode=0)),
+    ("D7", dict(size=50, count=5000, k=7, first="m", last="zz", port=80)),
+    ("D7", dict(size=5000, count=50, k=0, first="zz", last="b", port=8080)),
 ]
 
 
@@ -154,6 +167,9 @@ def make_records(rnd, count):
             specs.append(("D3", random_nested_values(rnd)))
         elif i % 6 == 5 and i % 12 == 5:
             specs.append(("D4", random_ip_values(rnd)))
+        elif i % 12 == 11:
+            specs.append(("D7", dict(size=rnd.choice([5, 50, 500, 5000]), count=rnd.choice([5, 50, 500, 5000]), k=rnd.choice(SMALL),
+                                     first=rnd.choice(["a", "m", "zz", "B"]), last=rnd.choice(["a", "m", "zz", "B"]), port=rnd.choice([0, 80, 8080]))))
         elif i % 6 == 5:
             specs.append(("D5", dict(data=rnd.choice(BYTES_VALUES), d2=rnd.choice(BYTES_VALUES + [None]), s=rnd.choice(STRS[:6]), n=rnd.choice(SMALL))))
         else:
@@ -232,7 +248,7 @@ def cq_fields(rec):
         ty = fld.typename
         if ty == "boolean" and v is not None:
             v = int(v)          # flow.record's boolean is an int subclass holding 0/1
-        if v is not None and ty not in ("varint", "string", "boolean", "uri", "record", "varint[]", "string[]", "record[]"):
+        if v is not None and ty not in ("varint", "string", "boolean", "uri", "uint16", "record", "varint[]", "string[]", "record[]"):
             raise NotModelled(ty)
         # a uri is a str with extra properties: the model knows it as the str (its properties are outside the model)
         fs.append("(%s, %s, %s)" % (cq_str(nm), cq_str(ty), cq_value(v)))
@@ -1025,6 +1041,13 @@ class Gen:
         ty = ty if "[" not in ty else "varint"
         lit = self.value(d - 1, "int" if ty in ("varint", "boolean", "uint16") else "str")
         c = r.random()
+        if r.random() < 0.2:
+            # the typed matcher as the middle (or an end) of a chained comparison: each link looks at every field again
+            lit2 = self.value(d - 1, "int" if ty in ("varint", "boolean", "uint16") else "str")
+            ops = ["<", "<=", ">", ">=", "==", "!="]
+            if r.random() < 0.7:
+                return "(%s %s Type.%s %s %s)" % (lit, r.choice(ops), ty, r.choice(ops), lit2)
+            return "(Type.%s %s %s %s Type.%s)" % (ty, r.choice(ops), lit, r.choice(ops), ty)
         if c < 0.45:
             return "(Type.%s %s %s)" % (ty, r.choice(["==", "!=", "<", "<=", ">", ">="]), lit)
         if c < 0.65:
@@ -1203,6 +1226,56 @@ def bytes_exprs(rnd, count):
         else:
             out.append("(%s %s Type.bytes)" % (rnd.choice(lits + ["lower(%s)" % rnd.choice(lits)]), rnd.choice(["==", "!=", "in"])))
     return out
+
+
+def membership_exprs(rnd, r, count):
+    """`field in / not in <literal list or tuple of constants>` for every field of the record, the constants taken from a
+    pool of foreign-kind renderings of the field values (str / int / float / bool) so that a member may EQUAL the field
+    value without being of its type"""
+    rec = r["rec"]
+    pool = ["zzz", -1, 2.5, "", None]
+    per_field = {}
+    for ty, nm in r["fields"]:
+        v = getattr(rec, nm)
+        cands = [str(v)]
+        for conv in (int, float, bool):
+            try:
+                cands.append(conv(v))
+            except Exception:  # noqa
+                pass
+        if isinstance(v, str):
+            cands += [v.upper(), v + "x"]
+        per_field[nm] = cands
+        pool += cands
+    out = []
+    for _ in range(count):
+        nm = rnd.choice(list(per_field))
+        k = rnd.choice([1, 2, 2, 3, 4])
+        members = [rnd.choice(per_field[nm]) if rnd.random() < 0.45 else rnd.choice(pool) for _ in range(k)]
+        lits = ", ".join(repr(m) for m in members)
+        seq = "[%s]" % lits if rnd.random() < 0.6 else "(%s,)" % lits
+        e = "(r.%s %s %s)" % (nm, rnd.choice(["in", "not in"]), seq)
+        c = rnd.random()
+        if c < 0.15:
+            e = "(not %s)" % e
+        elif c < 0.3:
+            e = "(%s and %s)" % (e, "(r.%s %s [%s])" % (nm, rnd.choice(["in", "not in"]), repr(rnd.choice(per_field[nm]))))
+        elif c < 0.4:
+            e = "any(%s for x in [1, 2])" % e
+        out.append(e)
+    return out
+
+
+MULTI_TEMPLATES = [
+    "10 < Type.varint < 100", "1000 < Type.varint < 10000", "10 < Type.varint < 60 < Type.varint", "1 < Type.varint < 10 < Type.varint < 100",
+    "'a' <= Type.string <= 'z'", "'n' < Type.string < 'zzz'", "'a' <= Type.string <= 'c'", "Type.varint > 1000 > Type.varint",
+    "Type.varint == 50 != Type.varint", "100 > Type.varint > 10", "Type.string < 'n' < Type.string",
+    "all(c for t in [Type.varint] for c in [t > 10, t < 100000])", "all(c for t in [Type.string] for c in [t == r.first, t == r.last])",
+    "any(t > 4000 and t < 60 for t in [Type.varint])", "field_contains(r, Type.string, [r.first]) and field_contains(r, Type.string, [r.last])",
+    "any(f == 'last' for f in Type.string) and any(f == 'first' for f in Type.string)",
+    "all(any(f == g for f in t) for t in [Type.string] for g in ['first', 'last'])",
+    "80 <= Type.uint16 <= 8080", "Type.varint.real > 100 > Type.varint.real",
+]
 
 
 # record layouts that share the descriptor NAME and the field NAMES but not the field TYPES, met one after the other in
@@ -1403,6 +1476,8 @@ def differential(ctx, kf, budget_pairs, maxdepth, rnd, with_coq, exhaustive=Fals
     gw = Gen(rnd, D1_FIELDS, wide=True)
     g3 = Gen(rnd, D3_FIELDS, nested=True)
     d5_idx = [i for i, r in enumerate(recs) if r["which"] == "D5"]
+    d6_idx = [i for i, r in enumerate(recs) if r["which"] == "D6"]
+    d7_idx = [i for i, r in enumerate(recs) if r["which"] == "D7"]
 
     def texts():
         if outside_first:
@@ -1415,6 +1490,11 @@ def differential(ctx, kf, budget_pairs, maxdepth, rnd, with_coq, exhaustive=Fals
             yield "ip", t
         for t in bytes_exprs(rnd, 150 if budget_pairs else 60):
             yield "bytes", t
+        for ri in d6_idx[:3]:
+            for t in membership_exprs(rnd, recs[ri], 120 if budget_pairs else 60):
+                yield ("on", ri), t
+        for t in MULTI_TEMPLATES:
+            yield "multi", t
         for _ in range(budget_pairs):
             depth = rnd.choice(range(1, maxdepth + 1))
             c = rnd.random()
@@ -1457,6 +1537,10 @@ def differential(ctx, kf, budget_pairs, maxdepth, rnd, with_coq, exhaustive=Fals
             picks = d4_idx[:3]
         elif kind == "bytes":
             picks = d5_idx[:3]
+        elif kind == "multi":
+            picks = d7_idx[:4]
+        elif isinstance(kind, tuple):
+            picks = [kind[1]]
         elif kind == "nested":
             picks = [rnd.choice(d3_idx), rnd.choice(d3_idx[:2])]
             if rnd.random() < 0.2:
